@@ -36,11 +36,11 @@ register(
 
 register(
     "C08",
-    "explicit-state BFS over send histories (advance / redo / jump-back / add-on) on the real generator objects, replayed from scratch, concrete-state hashing incl. generator frame locals, batch solver as reference model",
+    "explicit-state BFS over send histories (advance / redo / jump-back / add-on) on the real generator objects, replayed from scratch, concrete-state hashing incl. generator frame locals, batch solver as reference model; solver-object reuse across complete generator runs and batch solves (all ordered pairs of three histories)",
     "All send histories up to the depth bound (nt=4) for every solver kind x order x partition x mass x start "
     "configuration are executed on real generators; after every transition the visible d/v columns, the Force "
     "array and (at the last step) finalize() are compared with the batch solver on the force history in effect, "
-    "and get_f2x with the effect of each add-on. Exhaustive within depth/alphabet bounds.",
+    "and get_f2x with the effect of each add-on. Exhaustive within depth/alphabet bounds. One solver object used for several generator runs and batch solves in sequence must reproduce fresh-object runs.",
     "Trusted: batch tsolve as reference (itself checked against closed form in C01/C17); two force and two add-on "
     "vectors per event; histories longer than the bound and nt>4 are not explored.",
     "DESIGN.md §3 C08",
@@ -84,22 +84,22 @@ register(
 )
 register(
     "C07",
-    "bounded-exhaustive grid over matrix structures x ||Ah|| on both sides of every Pade/route switch x h x order x B x half x function, against a 50-digit Van Loan reference; SSModel round-trip / sampled-response / bilinear-equivalence over method x system x h",
+    "bounded-exhaustive grid over matrix structures x ||Ah|| on both sides of every Pade/route switch x h x order x B x half x function, against a 50-digit Van Loan reference; SSModel round-trip / sampled-response / bilinear-equivalence over method x system x h; explicit-state exploration of every c2d call history (length <= 3 over method x h) on one SSModel object",
     "All structure x norm x step x option x function combinations are evaluated (the Pade branch actually taken is "
     "recorded by wrapping the helper and reported as the signature) and E, the two integrals, P, Q and one hold step "
     "are compared with the exact values; every discretisation method is round-tripped and its sampled response "
-    "compared with the exactly integrated held-input response.",
+    "compared with the exactly integrated held-input response. Every c2d call history on one SSModel object must equal fresh-object conversions and leave earlier results and the model itself unchanged.",
     "Trusted: mpmath expm; normwise max-abs error measure with tolerance 2e3*eps*max(1,||Ah||); matrix sizes <= 4.",
     "DESIGN.md §3 C07",
 )
 
 register(
     "C02",
-    "bounded-exhaustive product grid over systems (regime alphabet, all rb/el/rf orderings, coupled/complex variants) x frequency sets x complex forces x all incrb forms x rf_disp_only x pre_eig x solver, against an extended-precision reference solution of the dynamic-stiffness equation; solvepsd against an independent double loop over all drm None-patterns",
+    "bounded-exhaustive product grid over systems (regime alphabet, all rb/el/rf orderings, coupled/complex variants) x frequency sets x complex forces x all incrb forms x rf_disp_only x pre_eig x solver, against an extended-precision reference solution of the dynamic-stiffness equation; solvepsd against an independent double loop over all drm None-patterns; explicit-state exploration of every fsolve/tsolve call history (length <= 3) on one solver object; input-immutability over memory layouts",
     "Every system x frequency-set x force x incrb (8 subsets, permuted spelling, deprecated integers) x rf_disp_only x "
     "solver combination is executed; d, v, a are compared element by element with the reference solution of "
     "(-W^2 M + iWB + K) d = F (conditioning-graded tolerance), exact zeros are demanded where the options zero a "
-    "response, and both solvers are held to the same reference; solvepsd is recomputed independently.",
+    "response, and both solvers are held to the same reference; solvepsd is recomputed independently. Every call history up to length 3 on one SolveUnc(h) object must reproduce fresh-object results, and inputs are never modified.",
     "Trusted: numpy complex solve + 3 steps of iterative refinement in long double as reference; tolerance "
     "200*eps*(sum|terms|)/|H| per element (diagonal) or 1e3*eps*cond(H) (coupled, x50*cond(eigvec) for the complex-mode path).",
     "DESIGN.md §3 C02",
@@ -107,22 +107,22 @@ register(
 
 register(
     "C17",
-    "bounded-exhaustive product grid (mass/damping/stiffness forms incl. singular mass x step ladder x forces x ICs x rf partitions x nonlinear-term definitions; CDF layouts x order x ICs) against independent transcriptions of the documented recurrences; step-halving ladders against the exact solution; boundedness over 200 steps",
+    "bounded-exhaustive product grid (mass/damping/stiffness forms incl. singular mass x step ladder x forces x ICs x rf partitions x nonlinear-term definitions; CDF layouts x order x ICs) against independent transcriptions of the documented recurrences; step-halving ladders against the exact solution; boundedness over 200 steps; solver-object reuse histories (another load case on the same object, earlier solution re-checked)",
     "Every form/option combination is executed and compared at round-off with a from-the-docstring implementation of "
     "the Newmark-Beta recurrence (start-up, 1/3 force average, extrapolated last step, central differences, nonlinear "
     "terms) and of the coupled-damping-force recurrence (with per-mode coefficients from mpmath, not get_su_coef); "
-    "convergence order and boundedness are decided on finite ladders.",
+    "convergence order and boundedness are decided on finite ladders. A solver object reused for another load case must reproduce a fresh object's answer and leave the earlier solution untouched.",
     "Trusted: the transcriptions ref_newmark/ref_cdf in vf/checks/c17.py; 3-DOF systems; ladder of 5 step sizes.",
     "DESIGN.md §3 C17",
 )
 
 register(
     "C03",
-    "bounded-exhaustive enumeration of ALL signals of length <= L over a 4-letter alphabet (packed as columns) x sr/fn x Q x stype x ic x time x peak x eqsine x frequency-vector order, against the exact two-state SDOF response to the linearly interpolated input; algebraic invariants; resampling contract; closed forms of srs_frf/vrs/Miles",
+    "bounded-exhaustive enumeration of ALL signals of length <= L over a 4-letter alphabet (packed as columns) x sr/fn x Q x stype x ic x time x peak x eqsine x frequency-vector order, against the exact two-state SDOF response to the linearly interpolated input; algebraic invariants; resampling contract; closed forms of srs_frf/vrs/Miles; explicit-state exploration of every srs call history (length <= 3 over a 6-call menu) with caller arrays overwritten in place, against the same call made first in a pristine process",
     "Every signal of the bounded space and every option combination is pushed through srs and the returned response "
     "histories, time vectors, windows and spectra are compared with an independent exact response (one-step matrices "
     "from a 40-digit expm, long-double stepping, ic rule and one-cycle padding taken from the statement); the peak "
-    "statistic, eqsine, scaling, column-order, packaging and pvelo/pacce relations are checked on every case.",
+    "statistic, eqsine, scaling, column-order, packaging and pvelo/pacce relations are checked on every case. Call histories with in-place reused input arrays must reproduce, bit for bit, the result of the same call made first in a fresh process.",
     "Trusted: reference in vf/checks/c03.py + vf/ref/ode_ref.py; tolerance 2000*eps*(sr/fn)^2 (xN/20 for relacce); "
     "signal alphabet {-1,0,.5,1}, lengths <= 5 plus three longer fixed records.",
     "DESIGN.md §3 C03",
@@ -130,12 +130,12 @@ register(
 
 register(
     "C04",
-    "bounded-exhaustive enumeration of every sparsity pattern of small shapes (incl. all string partitions of a 10-row column) x magnitude classes x real/complex x every write configuration x every read mode and API, plus boundary sizes at each format limit and all short multi-matrix files",
+    "bounded-exhaustive enumeration of every sparsity pattern of small shapes (incl. all string partitions of a 10-row column) x magnitude classes x real/complex x every write configuration x every read mode and API, plus boundary sizes at each format limit and all short multi-matrix files; explicit-state exploration of write/read event histories on one OP4 object (all ordered pairs + triples over 7 configurations)",
     "Each matrix of the bounded space is written with every binary/endian/layout/digits/input-type combination and "
     "read back through every read mode and API; name, shape, form, type and values (bit-exact for binary, "
     "0.5*10^-digits for ASCII) must be recovered, dense and sparse reads must agree and dir must list the same. "
     "Boundary sizes (65536-row bigmat switch, 16384-word string limit, 3000-value struct/fromfile cut-over) are "
-    "single cases on both sides of each limit.",
+    "single cases on both sides of each limit. Every ordered pair of write configurations on one OP4 object must produce the byte-identical files a fresh object writes.",
     "Trusted: numpy/scipy.sparse for building inputs; shapes <= 3x3 and 10x1 for the pattern enumeration; value "
     "classes chosen to reach 3-digit exponents, denormals and DBL_MAX.",
     "DESIGN.md §3 C04",
@@ -143,12 +143,12 @@ register(
 
 register(
     "C11",
-    "bounded-exhaustive enumeration of physical encodings produced by independent OUTPUT4/OUTPUT2 encoders that are re-bound on every run to the Nastran-written sample files (byte-for-byte reproduction); explicit-state exploration of reader positions over all skip/read sequences",
+    "bounded-exhaustive enumeration of physical encodings produced by independent OUTPUT4/OUTPUT2 encoders that are re-bound on every run to the Nastran-written sample files (byte-for-byte reproduction); explicit-state exploration of reader positions over all skip/read sequences; earlier reader results re-checked at the end of each read history; every ordered pair/triple of (file, method) events on one OP4 reader object over files differing in text/binary, byte order, key width, precision, layout",
     "For every matrix of the bounded space every permitted encoding (precision, key width, byte order, layout, every "
     "composition of each non-zero run into strings, trailer convention, ASCII exponent letter/width/1P/I16/name "
     "padding; OP2 header label, EOF key, table records in every composition of parts, all block orders with repeated "
     "names) is generated and decoded by pyYeti; decoded content, listings incl. byte ranges, every subset read and the "
-    "file offset after every skip/read sequence are compared with the encoder's ground truth.",
+    "file offset after every skip/read sequence are compared with the encoder's ground truth. Results returned earlier by a reader object must stay valid after later reads, and one OP4 object reading files of different encodings in any order must decode each as a fresh object does.",
     "Trusted: the encoders, as far as they reproduce all 44 sample files on every run; 64-bit OP2 matrix blocks are by "
     "analogy (no Nastran sample).",
     "DESIGN.md §3 C11",
@@ -178,21 +178,21 @@ register(
 
 register(
     "C18",
-    "bounded-exhaustive enumeration of all base-set assignments to 3 nodes and all per-DOF 6-letter strings, every ordered pair of set expressions, every DOF-request form x strictness, and all small inputs of the locate helpers, against a pure-set model of the USET lattice and the helpers' defining equations",
+    "bounded-exhaustive enumeration of all base-set assignments to 3 nodes and all per-DOF 6-letter strings, every ordered pair of set expressions, every DOF-request form x strictness, and all small inputs of the locate helpers, against a pure-set model of the USET lattice and the helpers' defining equations; addgrid call histories with run-time-built set strings",
     "Every USET table of the bounded space is built with make_uset and every partition vector (base sets, supersets, "
     "minor-from-major for all ordered pairs incl. unions) and DOF look-up is compared with a set-theoretic model "
-    "(refusal iff the minor set is not contained); the index helpers are checked on all small inputs.",
+    "(refusal iff the minor set is not contained); the index helpers are checked on all small inputs. Histories of addgrid calls with set strings built at run time must each carry exactly their own sets.",
     "Trusted: the set hierarchy transcribed from the docstring diagram; 3 nodes (2 grids + 1 scalar point).",
     "DESIGN.md §3 C18",
 )
 
 register(
     "C14",
-    "bounded-exhaustive enumeration of every CORD2R/C/S chain of depth 1-3 (each system defined in its parent's own coordinate type) x geometry sets x points x query systems x reference-point forms, against an independent closed-form resolution of the chain; RBE3 option grid; basic-system replacement",
+    "bounded-exhaustive enumeration of every CORD2R/C/S chain of depth 1-3 (each system defined in its parent's own coordinate type) x geometry sets x points x query systems x reference-point forms, against an independent closed-form resolution of the chain; RBE3 option grid; basic-system replacement; incremental addgrid call histories (one grid per call, systems by id, shared coordref dictionaries)",
     "For every chain every grid is entered in every system and queried in every system and in basic (as grid id, as "
     "definition and as xyz); the resolved 5x3 coordinate info, the returned coordinates (compared as points), the "
     "local-frame rigid-body modes, rbmove/rbcoords identities, RBE3 rigid-motion reproduction and the invariants of "
-    "replace_basic_cs are checked against own geometry.",
+    "replace_basic_cs are checked against own geometry. The same table built by incremental addgrid calls and through a shared coordref dictionary must equal the single-call table.",
     "Trusted: closed-form maps in vf/checks/c14.py; fixed non-axis-aligned geometry sets; points away from the polar axes.",
     "DESIGN.md §3 C14",
 )
